@@ -1324,7 +1324,28 @@ def random_world(seed, idx, near_border=False):
 # ------------------------------------------------------------------------------------------------
 # the check
 # ------------------------------------------------------------------------------------------------
+def fixed_worlds():
+    """float worlds chosen by hand (random worlds meet their kind rarely)"""
+    import shapely.geometry
+    from mapproxy.grid import TileGrid
+    from mapproxy.srs import SRS
+    from mapproxy.util.coverage import GeomCoverage
+    out = []
+    # a pyramid with a resolution factor of 2.5 (a tile of one level sticks out of its parent and is reached again from the
+    # neighbouring parent), a triangle across the world: one of the two parents lies inside the triangle, the other one
+    # on its edge
+    for name, nlev, tri in (('factor2.5-triangle', 5, [(-137.2, -16.0), (30.1, -47.0), (-15.6, 1.8)]),
+                            ('factor2.5-triangle-b', 5, [(-24.6, -35.9), (-130.3, -27.7), (107.1, 39.2)])):
+        g = TileGrid(SRS(4326), bbox=(-180.0, -90.0, 180.0, 90.0), res=[0.46875 / 2.5 ** i for i in range(nlev)])
+        poly = shapely.geometry.Polygon(tri)
+        out.append(WorldDef('fixed-' + name, g, (1, 1), GeomCoverage(poly, g.srs), list(range(nlev)), skip=0, cov_geom=poly,
+                            desc={'fixed': name}))
+    return out
+
+
 def world_from_desc(desc):
+    if 'fixed' in desc:
+        return [w for w in fixed_worlds() if w.desc['fixed'] == desc['fixed']][0]
     if 'lattice' in desc:
         name, grid, cov, levels, meta, skip, srs = desc['lattice']
         return lattice_world(name, grid, (cov[0], [tuple(r) for r in cov[1]]), levels, tuple(meta), skip, srs)
@@ -1582,6 +1603,11 @@ def code_to_spec(ctx, items, name, per_world, nmax=3):
 
 def random_items(ctx, n, max_nodes, max_events):
     items = []
+    for wd in fixed_worlds():
+        bw = build_world(wd, max_nodes=20000, max_events=None)
+        if bw is None:
+            raise tlc.MachineryError('fixed world %s could not be measured' % wd.name)
+        items.append(Item(wd, bw[0], bw[1]))
     idx = 0
     tries = 0
     while len(items) < n and tries < 20 * n:
